@@ -37,8 +37,8 @@ type c02Scn struct {
 }
 
 type c02Replay struct {
-	Scn     c02Scn `json:"scn"`
-	Choices []int  `json:"choices"`
+	Scn     c02Scn   `json:"scn"`
+	Choices []int    `json:"choices"`
 	Names   []string `json:"names"`
 }
 
